@@ -292,8 +292,8 @@ TASKS = {"directed": task_directed, "backend": task_backend}
 
 def plan(tier, seed):
     t = []
-    n, nsh = (4000, 2) if tier == "quick" else (150000, 5)
-    per, nb = (12, 1) if tier == "quick" else (120, 5)
+    n, nsh = (12000, 4) if tier == "quick" else (400000, 5)
+    per, nb = (30, 2) if tier == "quick" else (300, 5)
     for dtn in ("float16", "float32", "float64"):
         for s in range(nsh):
             t.append(("directed", dict(dtype=dtn, shard=s, n=n, seed=seed)))
